@@ -23,3 +23,112 @@ where
     }
 //@ end
 }
+
+/// lists over the edges with index below `upto` only (state of link_edges after `upto` edges)
+pub open spec fn lists_ok_prefix<N, E, Ix: IndexType>(ns: Seq<Node<N, Ix>>, es: Seq<Edge<E, Ix>>, k: int, ls: Seq<Seq<int>>, upto: int) -> bool {
+    &&& ls.len() == ns.len()
+    &&& forall|a: int| 0 <= a < ns.len() ==> slist(es, ns[a].next[k], k, #[trigger] ls[a]) && no_dup(ls[a])
+    &&& forall|a: int, i: int| 0 <= a < ns.len() && 0 <= i < ls[a].len() ==> 0 <= #[trigger] ls[a][i] < upto && es[ls[a][i]].node[k].0.ix() == a
+    &&& forall|e: int| 0 <= e < upto ==> (#[trigger] es[e]).node[k].0.ix() < ns.len() && ls[es[e].node[k].0.ix() as int].contains(e)
+}
+/// one step of link_edges: edge i (endpoint x in direction k) is linked at the head of x's k-list
+pub proof fn lemma_link_step<N, E, Ix: IndexType>(ns0: Seq<Node<N, Ix>>, es0: Seq<Edge<E, Ix>>, ns1: Seq<Node<N, Ix>>, es1: Seq<Edge<E, Ix>>, k: int, ls: Seq<Seq<int>>, x: int, i: int)
+    requires 0 <= k < 2, lists_ok_prefix(ns0, es0, k, ls, i), 0 <= i < es0.len(), es0.len() <= end_ix::<Ix>(), 0 <= x < ns0.len(),
+        ns1.len() == ns0.len(), es1.len() == es0.len(),
+        forall|j: int| 0 <= j < es0.len() && j != i ==> #[trigger] es1[j] == es0[j],
+        es1[i].node == es0[i].node, es0[i].node[k].0.ix() == x, es1[i].next[k] == ns0[x].next[k],
+        ns1[x].next[k].0.ix() == i,
+        forall|y: int| 0 <= y < ns0.len() && y != x ==> (#[trigger] ns1[y]).next[k] == ns0[y].next[k],
+    ensures lists_ok_prefix(ns1, es1, k, ls.update(x, seq![i] + ls[x]), i + 1)
+{
+    let ls1 = ls.update(x, seq![i] + ls[x]);
+    assert forall|a: int| 0 <= a < ns1.len() implies slist(es1, ns1[a].next[k], k, #[trigger] ls1[a]) && no_dup(ls1[a]) by {
+        let sa = ls[a];
+        lemma_slist_range(es0, ns0[a].next[k], k, sa);
+        lemma_slist_is_tchain(es0, ns0[a].next[k], k, sa);
+        assert forall|j: int| 0 <= j < sa.len() implies (#[trigger] sa[j]) < es1.len() && es1[sa[j]].next[k] == es0[sa[j]].next[k] by { assert(ls[a][j] < i); }
+        lemma_tchain_frame(es0, es1, ns0[a].next[k], k, sa, end_ix::<Ix>() as int);
+        lemma_tchain_is_slist(es1, ns0[a].next[k], k, sa);
+        if a == x {
+            let t = seq![i] + sa;
+            assert(t.drop_first() =~= sa);
+            assert(slist(es1, ns1[x].next[k], k, t));
+            assert forall|p: int, q: int| 0 <= p < q < t.len() implies t[p] != t[q] by { if p == 0 { assert(t[q] == ls[a][q - 1]); } else { assert(t[p] == sa[p - 1]); assert(t[q] == sa[q - 1]); } }
+        } else { assert(ls1[a] == ls[a]); }
+    }
+    assert forall|a: int, j: int| 0 <= a < ns1.len() && 0 <= j < ls1[a].len() implies 0 <= #[trigger] ls1[a][j] < i + 1 && es1[ls1[a][j]].node[k].0.ix() == a by {
+        if a == x { if j > 0 { assert(ls1[a][j] == ls[a][j - 1]); } } else { assert(ls1[a] == ls[a]); }
+    }
+    assert forall|e: int| 0 <= e < i + 1 implies (#[trigger] es1[e]).node[k].0.ix() < ns1.len() && ls1[es1[e].node[k].0.ix() as int].contains(e) by {
+        if e == i { assert(ls1[x][0] == i); }
+        else { let a = es0[e].node[k].0.ix() as int; assert(ls[a].contains(e)); let j = choose|j: int| 0 <= j < ls[a].len() && ls[a][j] == e; if a == x { assert(ls1[a][j + 1] == e); } else { assert(ls1[a][j] == e); } }
+    }
+}
+
+impl<N, E, Ty, Ix> Graph<N, E, Ty, Ix>
+where
+    Ty: EdgeType,
+    Ix: IndexType,
+{
+//@ item src/graph_impl/mod.rs | impl<N, E, Ty, Ix> Graph<N, E, Ty, Ix> where Ty: EdgeType, Ix: IndexType | fn link_edges | props=C01,C17
+    /// Fix up node and edge links after deserialization
+    fn link_edges(&mut self) -> (res: Result<(), NodeIndex<Ix>>)
+        /*+*/requires old(self).n() <= end_ix::<Ix>(), old(self).m() <= end_ix::<Ix>(),
+            forall|a: int| 0 <= a < old(self).n() ==> (#[trigger] old(self).nodes@[a]).next[0].i() == end_ix::<Ix>() && old(self).nodes@[a].next[1].i() == end_ix::<Ix>(),   // as produced by the node deserialiser
+        ensures
+            res is Ok ==> final(self).wf(),                                                                    // [link_edges_ok_means_well_formed] no corrupt graph from bad input
+            res is Ok <==> (forall|e: int| 0 <= e < old(self).m() ==> (#[trigger] old(self).edges@[e]).node[0].i() < old(self).n() && old(self).edges@[e].node[1].i() < old(self).n()),   // [link_edges_accepts_exactly_in_range_endpoints]
+            final(self).n() == old(self).n() && final(self).m() == old(self).m(),
+            forall|a: int| 0 <= a < old(self).n() ==> (#[trigger] final(self).nodes@[a]).weight == old(self).nodes@[a].weight,
+            forall|e: int| 0 <= e < old(self).m() ==> (#[trigger] final(self).edges@[e]).weight == old(self).edges@[e].weight && final(self).edges@[e].node == old(self).edges@[e].node/*-*/,   // [link_edges_keeps_payload]
+    {
+        /*+*/let ghost mut out: Seq<Seq<int>> = Seq::new(self.nodes@.len(), |a: int| Seq::<int>::empty());
+        let ghost mut inn: Seq<Seq<int>> = Seq::new(self.nodes@.len(), |a: int| Seq::<int>::empty());/*-*/
+        /*R:D6 for (edge_index, edge) in enumerate(&mut self.edges) */ let mut __i = 0usize; loop 
+            invariant __i <= self.edges@.len(), self.n() == old(self).n() && self.m() == old(self).m(), self.n() <= end_ix::<Ix>(), self.m() <= end_ix::<Ix>(),
+                lists_ok_prefix(self.nodes@, self.edges@, 0, out, __i as int),
+                lists_ok_prefix(self.nodes@, self.edges@, 1, inn, __i as int),
+                forall|a: int| 0 <= a < old(self).n() ==> (#[trigger] self.nodes@[a]).weight == old(self).nodes@[a].weight,
+                forall|e: int| 0 <= e < old(self).m() ==> (#[trigger] self.edges@[e]).weight == old(self).edges@[e].weight && self.edges@[e].node == old(self).edges@[e].node,
+            ensures __i >= self.edges@.len(),
+            decreases self.edges@.len() - __i/*-*/
+        {
+            /*+*/if __i >= self.edges.len() { break; } let edge_index = __i; let ghost ns0 = self.nodes@; let ghost es0 = self.edges@; let edge = &mut self.edges[edge_index]; __i += 1;/*-*/
+            let a = edge.source();
+            let b = edge.target();
+            let edge_idx = EdgeIndex::new(edge_index);
+            match index_twice(&mut self.nodes, a.index(), b.index()) {
+                Pair::None => /*+*/{ proof { assert(es0[edge_index as int].node == old(self).edges@[edge_index as int].node);
+                    assert(!(old(self).edges@[edge_index as int].node[0].i() < old(self).n() && old(self).edges@[edge_index as int].node[1].i() < old(self).n())); }/*-*/ return Err(if a > b { a } else { b }) /*+*/}/*-*/,
+                Pair::One(an) => {
+                    edge.next = an.next;
+                    an.next[0] = edge_idx;
+                    an.next[1] = edge_idx;
+                }
+                Pair::Both(an, bn) => {
+                    // a and b are different indices
+                    edge.next = [an.next[0], bn.next[1]];
+                    an.next[0] = edge_idx;
+                    bn.next[1] = edge_idx;
+                }
+            }
+            /*+*/proof {
+                let i = edge_index as int; let ai = a.i(); let bi = b.i();
+                lemma_link_step(ns0, es0, self.nodes@, self.edges@, 0, out, ai, i);
+                lemma_link_step(ns0, es0, self.nodes@, self.edges@, 1, inn, bi, i);
+                out = out.update(ai, seq![i] + out[ai]);
+                inn = inn.update(bi, seq![i] + inn[bi]);
+            }/*-*/
+        }
+        /*+*/proof {
+            assert(self.wf_with(out, inn));
+            self.lemma_wf_unique(out, inn);
+            assert forall|e: int| 0 <= e < old(self).m() implies (#[trigger] old(self).edges@[e]).node[0].i() < old(self).n() && old(self).edges@[e].node[1].i() < old(self).n() by {
+                assert(self.edges@[e].node == old(self).edges@[e].node);
+                assert(self.edges@[e].node[0].0.ix() < self.nodes@.len()); assert(self.edges@[e].node[1].0.ix() < self.nodes@.len());
+            }
+        }/*-*/
+        Ok(())
+    }
+//@ end
+}
